@@ -94,7 +94,7 @@ prop("C04", "TestC04", q, t,
      level_note="Trusted: encoding/xml RawToken as the token oracle; text is compared after trimming (inter-element whitespace is not significant per the property).",
      design_ref="DESIGN.md section 4, C04")
 
-q, t = tiers(25000, 500000)
+q, t = tiers(10000, 300000)
 prop("C05", "TestC05", q, t,
      rule="four clauses drawn per case: (a) encoder-side escaping - hostile strings in element, attribute and text-beside-child positions of a Map/MapSeq, four encoders, exact value recovery; "
           "(b) decoder-side escaping - generated documents, decode-with-escaping/encode/plain-decode equals plain decode (Map) or equal token streams (MapSeq); "
@@ -106,7 +106,7 @@ prop("C05", "TestC05", q, t,
      level_note="Trusted: encoding/xml as validity judge. Element text is compared after the documented trimming.",
      design_ref="DESIGN.md section 4, C05")
 
-q, t = tiers(25000, 600000)
+q, t = tiers(25000, 600000, t_fuzz=[dict(target="FuzzJSON", seconds=90)])
 prop("C06", "TestC06", q, t,
      rule="two clauses: (roundtrip) JSON-shaped Maps with keys/strings over an alphabet rich in < > &, backslashes, quotes, control characters and the literal texts \\u003c \\u003e \\u0026, "
           "encoded with Json/JsonIndent (safe on/off, blank prefix/indent), the Writer/Raw forms, j2x.MapToJson and Copy; (diff) byte strings - encodings of generated values, "
